@@ -512,10 +512,13 @@ func (g *caseGen) one() {
 	case k < 97:
 		g.alias2()
 	case k < 98:
-		if r.Chance(1, 2) {
+		switch r.Intn(3) {
+		case 0:
 			g.serve()
-		} else {
+		case 1:
 			g.wserve()
+		default:
+			g.fserve()
 		}
 	default:
 		q := g.relatedQ()
@@ -728,6 +731,42 @@ func (g *caseGen) alias2() {
 	n := 1 + r.Intn(3)
 	for i := 0; i < n; i++ {
 		g.out("fail alias %s %d %s %s %d %s", hexName(q.name), q.c, vlib.B(q.cd), vlib.B(r.Bool()), g.step(), vlib.Pick(r, outs))
+	}
+}
+
+// the failover route: cache → failover → scripted primary, real loopback
+// fallback server; classes IN and CH, CD 0/1, failing / recovering fallback.
+func (g *caseGen) fserve() {
+	r := g.r
+	q := g.relatedQ()
+	if c, ok := canonRaw(q.name); !ok || len(c) > 200 {
+		q.name = "fo.example.com."
+	} else if _, ok := wireOfPres(q.name); !ok {
+		q.name = "fo.example.com."
+	} else {
+		ls, _, _, _ := scanName(c)
+		var bl [][]byte
+		for _, l := range ls {
+			bl = append(bl, []byte(l))
+		}
+		q.name = presentLabels(bl)
+	}
+	q.t = vlib.Pick(r, []int{1, 16, 28})
+	q.c = vlib.Pick(r, []int{1, 1, 3, 3, 4})
+	q.scope = "-"
+	g.qs = append(g.qs, q)
+	prim := []string{"servfail", "servfail", "servfail", "refused", "useful", "nxdomain", "local:attempt", "local:deadline", "local:probe", "local:shed", "local:other"}
+	fb := []string{"servfail", "servfail", "refused", "useful", "nxdomain"}
+	for i := 2 + r.Intn(3); i > 0; i-- {
+		g.out("fail fserve %s %d %d %s %s %d %s %s", hexName(q.name), q.t, q.c, vlib.B(q.cd), vlib.B(r.Bool()), g.step(), vlib.Pick(r, prim), vlib.Pick(r, fb))
+		if r.Chance(1, 3) { // the neighbour in the other class must be untouched
+			o := q
+			o.c = 4 - q.c
+			if o.c < 1 {
+				o.c = 1
+			}
+			g.out("fail lookup %s %d", o, g.t)
+		}
 	}
 }
 
